@@ -1230,6 +1230,26 @@ func ruleClientRequestShape(p *Prog, r *Out) {
 			cs.expr("refill only when nothing is buffered and the stream has more", refillIf.Cond, fdeDomain{[]string{"len(pb.body)", "pb.stream!=nil", "pb.drained"}, [][]int64{seq(0, 2), {0, 1}, {0, 1}}}, nil, func(e fdeEnv) int64 {
 				return b2i(e["len(pb.body)"] == 0 && e["pb.stream!=nil"] != 0 && e["pb.drained"] == 0)
 			}, "len(body) == 0 && stream != nil && !drained", "reading the next chunk while octets are still buffered overwrites them; not reading when empty stalls the body")
+			// inside the branch nothing stands between its entry and the Read
+			straight := false
+			for _, st := range refillIf.Body.List {
+				has := false
+				inspectCalls(st, func(cl *ast.CallExpr) {
+					if p.calleeOf(cl) == "(*Conn).refillPending" {
+						has = true
+					}
+				})
+				if has {
+					straight = true
+					break
+				}
+				if _, plain := st.(*ast.ExprStmt); !plain {
+					if as, isAs := st.(*ast.AssignStmt); !isAs || as == nil {
+						break
+					}
+				}
+			}
+			r.check(straight, "an empty buffer is always refilled", p.pos(refillIf.Pos()), "nothing but plain statements before refillPending in the refill branch", "the refill branch can be left before the next chunk is read (for example when a window is shut): the end of a body of unknown length is only discovered by that read, so a body that exactly spends the window never gets its END_STREAM and the request hangs")
 		} else {
 			r.bad("refill only when nothing is buffered and the stream has more", cs.pos, "no refill step in sendPending")
 		}
